@@ -66,6 +66,26 @@ SEEDS = {
  'C09-4': ('/tmp/wt2_C09', 2, 'C09', 'a header that repeats a recognised column name', {'C09': ['parse_tx_csv|consume|next'], 'C07': ['anchor-lost:column-index-map']}, ''),
  'C10-3': ('/tmp/wt2_C10', 1, 'C10', 'a USD trade with a CAD commission copied verbatim into the summary', {'C11': ['commission-currency-exported-whenever-present']}, 'seeded against C10, reported by the C11 check after rule R11h was added (also catches C11-1)'),
  'C10-4': ('/tmp/wt2_C10', 2, 'C10', '--summarize-annual-gains and a sale traded in December, settled in January', {'C06': ['R6c|portfolio::summary::make_annual_gains_summary_txs']}, 'seeded against C10, reported by the C06 check (R6c: yearly figures keyed by the settlement year)'),
+ 'C11-3': ('/tmp/wt2_C11', 1, 'C11', 'a foreign-currency row whose exchange rate is exactly 1 (USD at parity)', {'C11': ['rate-written-whatever-its-value']}, 'caught after rule R11i (no comparison on an exchange rate under Tx::to_csvtx) was added'),
+ 'C11-4': ('/tmp/wt2_C11', 2, 'C11', 'a memo containing a line break, written through a converter front end', {'C11': ['cells-written-unchanged']}, 'caught after rule R11j (table cells reach write_record untransformed) was added; it also exposed a false alarm of C04 R4b (errors written through a helper), which was corrected'),
+ 'C12-3': ('/tmp/wt2_C12', 1, 'C12', 'a year cached during that year, then a run in a later year for a date after the cached range', {'C13': ['cache-accepted']}, 'seeded against C12, reported by the C13 check (R13b)'),
+ 'C12-4': ('/tmp/wt2_C12', 2, 'C12', 'a noon (pre-2017) observation below 1, i.e. a date on which the Canadian dollar was above parity', {'C12': ['quote-direction-by-series-not-by-value']}, 'caught after rule R12f (no size comparison on a rate in the remote parser) was added'),
+ 'C13-3': ('/tmp/wt2_C13', 1, 'C13', 'a partial year cached during year Y, then a non-forced run in Y+1 looking up a later date of Y', {'C13': ['cache-accepted']}, ''),
+ 'C13-4': ('/tmp/wt2_C13', 2, 'C13', 'the CSV cache, a year from 2017 on, and a second run served from the file', {'C13': ['cache-stores-rates-losslessly']}, 'caught after rule R13e (no lossy operation reachable from the cache writers) was added'),
+ 'C14-3': ('/tmp/wt2_C14', 1, 'C14', 'a first write of a year killed mid-row; a later run promotes the left-over .tmp', {'C14': ['recover_pending_rates_csv_file']}, ''),
+ 'C14-4': ('/tmp/wt2_C14', 2, 'C14', 'a kill while the writer drops (flushes) after the rename', {'C14': ['flush-before-sync']}, ''),
+ 'C15-3': ('/tmp/wt2_C15', 1, 'C15', 'a split inside the window of a loss sale while the later buyer holds nothing', {'C15': ['split-factor-recorded-unconditionally']}, ''),
+ 'C15-4': ('/tmp/wt2_C15', 2, 'C15', 'a split whose settlement date equals that of a trade listed before it', {'C07': ['order-key-fields']}, 'seeded against C15, reported by the C07 check (R7a: the order key reads only settlement date and read index)'),
+ 'C16-3': ('/tmp/wt2_C16', 1, 'C16', '--symbol-base for a security traded only by non-default affiliates', {'C16': ['opening-position-handed-on-unchanged']}, 'caught after rule R16d (the looked-up position reaches the ledger seed unfiltered) was added; demonstration is a shell script, run by hand with and without the patch'),
+ 'C16-4': ('/tmp/wt2_C16', 2, 'C16', 'a specification with four or more fields whose last two are numbers', {'C16': ['specification-has-exactly-three-fields']}, 'caught after rule R16e (unbounded split and a field count of exactly 3) was added'),
+ 'C17-3': ('/tmp/wt2_C17', 1, 'C17', '--total-costs and a transaction of a non-default affiliate', {'C17': ['every-delta-reaches-the-cost-pass']}, 'caught after rule R17g (no filtering adaptor between the delta lists and the cost pass) was added'),
+ 'C17-4': ('/tmp/wt2_C17', 2, 'C17', 'two securities, one first settling later and with two or more transactions', {'C17': ['opening-cost-recorded-once']}, 'caught after rule R17h (the opening-cost entry is written only when absent) was added; patch.diff re-based onto the tree with the C17 fix, the delivered patch kept as patch.orig-4ed83c2.diff'),
+ 'C18-3': ('/tmp/wt2_C18', 1, 'C18', 'a LIQ or DIS row in USD with a non-zero price (cash in lieu)', {'C18': ['foreign-trade-always-gets-its-fx-leg']}, 'caught after rule R18d (only the currency test stands between a trade row and its implicit FX leg) was added'),
+ 'C18-4': ('/tmp/wt2_C18', 2, 'C18', 'a numeric sheet cell whose value is not exactly representable in binary (10.1)', {'C18': ['no-binary-float-expansion']}, 'caught after rule R18e (no from_f64_retain) was added'),
+ 'C19-3': ('/tmp/wt2_C19', 1, 'C19', 'an option-exercise confirmation among the inputs (sale dates pre-filled)', {'C19': ['benefit-with-sold-shares-is-always-matched']}, ''),
+ 'C19-4': ('/tmp/wt2_C19', 2, 'C19', 'two equal sales on one day in the post-2023 confirmation layout', {'C19': ['every-parsed-entry-is-collected']}, 'caught after rule R19g (collected entries are not de-duplicated or conditional on what was collected) was added'),
+ 'C20-3': ('/tmp/wt2_C20', 1, 'C20', 'a hint group consisting only of pages named by earlier groups', {'C20': ['queue-is-the-whole-group', 'ends-only-when-groups-exhausted-or-load-failed']}, 'caught after rule R20e was added'),
+ 'C20-4': ('/tmp/wt2_C20', 2, 'C20', 'the page carrying the "Current month" header is also the table page (one-page statement)', {'C20': ['every-page-is-tested-for-the-table']}, 'caught after rule R20f (no path to the next page ahead of the marker test) was added'),
 }
 VERIF = os.path.dirname(os.path.dirname(os.path.abspath(__file__)))
 def main(ids):
@@ -85,7 +105,7 @@ def main(ids):
             elif os.path.getsize(p) < 400000: shutil.copy(p, dst)
         meta = {'id': sid, 'property': pid, 'breaks': pid, 'needs_to_manifest': needs, 'caught_by': caught,
                 'detected': bool(caught), 'note': note,
-                'what_was_run': ['git apply patch.diff in a scratch worktree of /repo HEAD (bc25aab)', 'cargo build --offline --workspace',
+                'what_was_run': ['git apply patch.diff in a scratch worktree of /repo at its HEAD at the time (round 1: bc25aab; round 2: 4ed83c2, re-checked on 89537fd)', 'cargo build --offline --workspace',
                                  'cargo test --workspace --offline --no-fail-fast: 114 lib + all integration tests pass (only the network test test_sample_csv_file_validity fails, as on the clean tree)',
                                  'demonstration test copied into tests/: FAILS with the patch, PASSES without it',
                                  './check <every registered property> --repo <patched worktree>'],
